@@ -197,10 +197,16 @@ Lemma environ_spec_list : forall items,
   NoDup (map fst (spec_env items)) /\ forall k, aget k (spec_env items) = env_last k items.
 Proof. intros items. split; [apply spec_env_nodup|apply spec_env_lookup]. Qed.
 
-(* ---------------------------------------------------------------- the refuted full-strength statement *)
+Lemma environ_lookup_now : forall r,
+  wf_env r = true ->
+  exists d, pl_environ now (view_env r) = Val d /\ NoDup (map fst d) /\
+            forall k, aget k d = env_last k (e_items r).
+Proof. intros r H1. apply environ_lookup; auto. intros H; discriminate H. Qed.
+
+(* ---------------------------------------------------------------- the code before commit 46827e5: refuted *)
 Lemma environ_cr_refuted :
   exists r, wf_env r = true /\
-            forall d, pl_environ cur (view_env r) = Val d -> aget (bs "A") d <> env_last (bs "A") (e_items r).
+            forall d, pl_environ before_fix (view_env r) = Val d -> aget (bs "A") d <> env_last (bs "A") (e_items r).
 Proof.
   exists {| e_items := [EKV (bs "A") [49; 13; 10; 50]]; e_tail := ENone |}.
   split; [reflexivity|]. intros d H. vm_compute in H. inversion H; subst. vm_compute. congruence.
